@@ -263,8 +263,8 @@ def run(tier: str, seed: int) -> int:
         cov['exhaustive'] = tier == 'thorough'
         cov['rule'] = ('model: all histories of <= 3 distinct accesses with 2 save cycles (quick) / all closed cache states and '
                        'all 2^21 access sets (thorough) on the measured constants; files: every single access, ordered pairs, '
-                       'shortest paths into distinct cache states (all 5440 per uncompressed synthesised file in the thorough '
-                       'tier) and seeded walks, on every layout x compression')
+                       'shortest paths into distinct cache states (thorough: all 5440 on v20, l4d2, chaos, vitamin, 1200 sampled on '
+                       'the other uncompressed files) and seeded walks, on every layout x compression')
         sigs = model_sigs + [sig_of(m) for m in allm]
         dump = os.environ.get('C10_DUMP')
         if dump:
